@@ -20,11 +20,11 @@ extern "C" void verif_thread_run(std::thread::_State *s) { if (g_run_threads) s-
 #ifndef WMODE
 #define WMODE 1          // what the periodic worker does while a caller blocks: 1 = runs a collect/export cycle, 0 = nothing
 #endif
-static int g_worker_steps;
+static int g_worker_steps; static bool g_worker_may_run;   // set by the entries in which a caller blocks on the periodic worker (not by the collect thread's own join)
 extern "C" void verif_worker_step(uint32_t why) {
   if (!g_reader) return;
   // why 1: the caller is inside a condition wait; why 2: the caller joins the worker (which may still be finishing a cycle)
-  if (WMODE == 1 && g_worker_steps < 1) { g_worker_steps++; g_reader->CollectAndExportOnce(); }
+  if (WMODE == 1 && g_worker_may_run && g_worker_steps < 1) { g_worker_steps++; g_reader->CollectAndExportOnce(); }
 }
 extern "C" { extern uint64_t verif_clock_min_step; }
 static void take_ticket() { uint64_t t = g_reader->force_flush_pending_sequence_.fetch_add(1) + 1; if (g_ntickets < 2) { g_ticket[g_ntickets] = t; g_issued_at[g_ntickets] = g_recorded; } g_ntickets++; }
@@ -72,7 +72,7 @@ ENTRY h_collect_cycle() {
 // ForceFlush of the reader (MetricReader::ForceFlush -> OnForceFlush): the caller blocks, the worker may run a cycle meanwhile
 ENTRY h_reader_force_flush() {
   auto *r = make_reader();
-  g_recorded = 3;
+  g_recorded = 3; g_worker_may_run = true;
   if (WMODE == 0) verif_clock_min_step = 2000000000ULL;   // bounded progress: the steady clock advances >= 2 s per reading, the 1 s budget runs out
   bool res = r->ForceFlush(std::chrono::microseconds(1000000));
   if (res) {
@@ -84,7 +84,7 @@ ENTRY h_reader_force_flush() {
 // Shutdown of the reader: the worker is joined (it may finish one more cycle), then the exporter is shut down; nothing is exported afterwards
 ENTRY h_reader_shutdown() {
   auto *r = make_reader();
-  g_recorded = 1;
+  g_recorded = 1; g_worker_may_run = true;
   r->Shutdown(std::chrono::microseconds(1000));
   VASSERT(g_exp_shutdown == 1 && !g_export_after_shutdown, "periodic reader Shutdown: the exporter is shut down once, after the worker's last Export");
   int e = g_exports;
